@@ -150,7 +150,7 @@ def tlaps_check(ctx, m):
     out_path = os.path.join(ctx["dir"], "tlaps_%s.out" % m["name"])
     t0 = time.time()
     rc = -9
-    for attempt, stretch in enumerate(("2", "8")):
+    for attempt, stretch in enumerate(("2", "8", "30")):          # back-end time limits stretched on a loaded machine
         with open(out_path, "w") as fo:
             try:
                 rc = subprocess.run(["tlapm", "--threads", "4", "--stretch", stretch, m["module"] + ".tla"], cwd=d, stdout=fo, stderr=subprocess.STDOUT,
